@@ -62,7 +62,7 @@ def _axes():
         Axis("incr", [("F", False), ("T", True)]),
         Axis("pc", [("exact", "exact"), ("stale", "stale"), ("shifted", "shifted"), ("identity", "identity")]),
         Axis("entry", [("trm", "trm"), ("nes-warm", "nes-warm"), ("nes-nowarm", "nes-nowarm"),
-                       ("nes-warm-noupd", "nes-warm-noupd")]),
+                       ("nes-warm-noupd", "nes-warm-noupd"), ("nes-nowarm-noupd", "nes-nowarm-noupd")]),
     ]
 
 
@@ -244,8 +244,8 @@ def run_group(g, tier, seed, rec):
                         xr, ok = ES.trust_region_minimize(obj, x0j, settings, callback=cb)
                     else:
                         xr, ok = ES.nonlinear_equation_solve(obj, x0j, pnew, settings, callback=cb,
-                                                             useWarmStart=(entry != "nes-nowarm"),
-                                                             updatePrecond=(entry != "nes-warm-noupd"))
+                                                             useWarmStart=("nowarm" not in entry),
+                                                             updatePrecond=("noupd" not in entry))
             except HorizonExceeded:
                 rec.noverdict(cid, "horizon")
                 continue
@@ -298,11 +298,11 @@ def run_group(g, tier, seed, rec):
             if iterates:
                 if not onp.array_equal(xr, iterates[-1], equal_nan=True):
                     sigs.append(("returned-not-last-reported", {"last": iterates[-1]}))
-            elif entry in ("trm", "nes-nowarm"):
+            elif entry in ("trm", "nes-nowarm", "nes-nowarm-noupd"):
                 if not onp.array_equal(xr, onp.asarray(x0, dtype=float), equal_nan=True):
                     sigs.append(("returned-not-start-when-nothing-reported", {}))
             # (3) finiteness
-            if finite_everywhere and entry in ("trm", "nes-nowarm"):
+            if finite_everywhere and entry in ("trm", "nes-nowarm", "nes-nowarm-noupd"):
                 if not all(onp.all(onp.isfinite(it)) for it in iterates) or not onp.all(onp.isfinite(xr)):
                     sigs.append(("non-finite-iterate", {}))
             # objective.p afterwards
@@ -313,7 +313,7 @@ def run_group(g, tier, seed, rec):
                 sigs.append(("objective.p-not-requested", {}))
             # (1) descent along reported iterates, in the solver's own evaluation
             if not cval["incr"]:
-                seq = ([onp.asarray(x0, dtype=float)] if entry in ("trm", "nes-nowarm") else []) + iterates
+                seq = ([onp.asarray(x0, dtype=float)] if entry in ("trm", "nes-nowarm", "nes-nowarm-noupd") else []) + iterates
                 vals = [float(obj.objective(jnp.array(xx), pnew)) for xx in seq]
                 for i, xx in enumerate(seq):
                     if onp.all(onp.isfinite(xx)):
